@@ -299,6 +299,53 @@ fn check_name(ctx: &Ctx, proto: &Proto, exhaustive: bool, stride: usize, bound2:
     }
 }
 
+
+/// A failing set_psk (wrong key length, location out of range) must change nothing either - in particular it
+/// must not leave something in an EMPTY slot. Baseline: the side's psk is not configured, the call that needs
+/// it fails (missing psk), set_psk supplies it, the session completes. Faulted: the same with failing set_psk
+/// calls before the call that needs the psk (and once at the very start). Every other step must have the same
+/// outcome and every message the same bytes as in the baseline.
+fn check_failed_set_psk(ctx: &Ctx, proto: &Proto) {
+    let h = honest(proto);
+    let faults = faults_for(proto, false, 64);
+    for base_f in faults.iter().filter(|f| f.omit_psk.is_some()) {
+        let (side, loc) = base_f.omit_psk.unwrap();
+        let cfg = cfg_for(proto, &[base_f]);
+        let base_ops = apply(&h, &[base_f]);
+        let base = sess::run(&cfg, &base_ops);
+        let outcome = |e: &Exec, skip: &[usize]| -> Vec<bool> { e.steps.iter().enumerate().filter(|(k, _)| !skip.contains(k)).map(|(_, s)| s.real.is_ok()).collect() };
+        let base_out = outcome(&base, &[]);
+        let base_w = wire_bytes(&base);
+        for (bad_loc, klen) in [(loc, 0usize), (loc, 31), (loc, 33), (loc, 64), (10, 32), (11, 31)] {
+            for at in [0usize, base_f.at] {
+                let mut ops = base_ops.clone();
+                ops.insert(at, Op::SetPsk { side, loc: bad_loc, klen });
+                let e = sess::run(&cfg, &ops);
+                ctx.add(&ctx.evaluations, 1);
+                ctx.add(&ctx.transitions, e.steps.len() as u64);
+                ctx.add(&ctx.traces, 1);
+                if e.steps.get(at).map_or(true, |s| s.real.is_ok()) {
+                    ctx.count("fault_did_not_fail (not judged)", 1);
+                    continue;
+                }
+                ctx.add(&ctx.nontrivial, 1);
+                ctx.count("failed: set_psk with a wrong key length or location", 1);
+                let got = outcome(&e, &[at]);
+                let mut v: Vec<(String, String)> = sess::filter(&e, &NOOP_CATS).into_iter().filter(|m| m.step == at).map(|m| ("NoOp after a failing set_psk".to_string(), m.detail.clone())).collect();
+                if got != base_out {
+                    let k = got.iter().zip(&base_out).position(|(a, b)| a != b).unwrap_or(0);
+                    v.push(("a later call behaves differently after a failing set_psk (wrong key length / location)".to_string(), format!("call {k} (not counting the failing one): {} here, {} without the failing set_psk", if got.get(k) == Some(&true) { "Ok" } else { "Err" }, if base_out.get(k) == Some(&true) { "Ok" } else { "Err" })));
+                } else if wire_bytes(&e) != base_w {
+                    v.push(("messages after a failing set_psk differ from the run without it".to_string(), "wire bytes differ".to_string()));
+                }
+                for (sig, d) in v {
+                    ctx.violation(sig, format!("{}: set_psk({bad_loc}, {klen} bytes) by {side:?} before op {at}: {d}", proto.name), sess::case_json(&cfg, &ops));
+                }
+            }
+        }
+    }
+}
+
 // ---------------------------------------------------------------------------------------------
 // E2: scattered failures as sequences with de-duplication
 
@@ -377,7 +424,7 @@ fn seq_spec(proto: &Proto, depth_extra: usize, devs: usize) -> SeqSpec {
 pub fn run(tier: Tier) -> i32 {
     let ctx = Ctx::new("C07", tier, "fault_enumeration");
     let quick = ctx.quick();
-    ctx.set_rule("case = (protocol name, honest session of handshake + 6 transport messages, 1 or 2 failing calls inserted at a chosen point: undersized write buffer at every token boundary (thorough: every length), over-long payload, out-of-turn call, PSK supplied late, bit-flipped / truncated / extended / oversize / all-zero / earlier message, undersized payload buffer, transport-mode failures); oracle: wire bytes identical to the run without the failing calls, every other step Ok, no public getter changes across the failed call; non-trivial = every inserted call really returned Err; plus E2 BFS over scattered failures");
+    ctx.set_rule("case = (protocol name, honest session of handshake + 6 transport messages, 1 or 2 failing calls inserted at a chosen point: undersized write buffer at every token boundary (thorough: every length), over-long payload, out-of-turn call, PSK supplied late, set_psk with a wrong key length / location on an empty slot, bit-flipped / truncated / extended / oversize / all-zero / earlier message, undersized payload buffer, transport-mode failures); oracle: wire bytes identical to the run without the failing calls, every other step Ok, no public getter changes across the failed call; non-trivial = every inserted call really returned Err; plus E2 BFS over scattered failures");
     // E1
     let mut names: Vec<(Proto, bool)> = patterns::all_protos_for_suite(DhAlg::X25519, CipherAlg::ChaChaPoly, HashAlg::Sha256).into_iter().map(|p| (p, false)).collect();
     for b in patterns::base_patterns() {
@@ -399,6 +446,7 @@ pub fn run(tier: Tier) -> i32 {
     ctx.set("names_bound2", json!(names.iter().filter(|x| x.1).count()));
     let stride = if quick { 8 } else { 1 };
     names.par_iter().for_each(|(p, b2)| check_name(&ctx, p, !quick && !*b2, if *b2 { 64 } else { stride }, *b2));
+    names.par_iter().filter(|(p, b2)| !*b2 && !p.psks.is_empty()).for_each(|(p, _)| check_failed_set_psk(&ctx, p));
     // E2
     let (extra, devs) = if quick { (3, 2) } else { (5, 3) };
     // all 38 base patterns and a psk variant of each (psk on the last message; thorough also psk0 and P-256)
